@@ -31,6 +31,9 @@ type Parser struct {
 	args        []Term
 
 	buf tokenRingBuffer
+
+	// failed is the number of calls of next() that failed without consuming a token since the last success.
+	failed int
 }
 
 // ParsedVariable is a set of information regarding a variable in a parsed term.
@@ -104,14 +107,20 @@ func (p *Parser) next() (Token, error) {
 	if p.buf.empty() {
 		t, err := p.lexer.Token()
 		if err != nil {
+			p.failed++
 			return Token{}, err
 		}
 		p.buf.put(t)
 	}
+	p.failed = 0
 	return p.buf.get(), nil
 }
 
 func (p *Parser) backup() {
+	if p.failed > 0 { // There's nothing to back up since the last next() didn't consume any token.
+		p.failed--
+		return
+	}
 	p.buf.backup()
 }
 
